@@ -107,3 +107,23 @@ Proof.
   rewrite B1 in B1'. injection B1' as <-. rewrite B2 in B2'. injection B2' as <-. congruence.
 Qed.
 Print Assumptions C04_dedup_irrelevant.
+
+(* program level: whatever a program computes (Compile/TSem.v), the circuits emitted with
+   and without gate de-duplication decode to the same panic / the same value *)
+From GV Require Import Builder.Build Panic.PanicRec Panic.PanicSem Lang.Ast Compile.Lower Compile.TSem Compile.LowerSound.
+
+Theorem C04_program_dedup_irrelevant : forall fuel P s1 outs1 s2 outs2,
+  lower_main_with fuel true P = Ok (PreOk s1 outs1) -> lower_main_with fuel false P = Ok (PreOk s2 outs2) ->
+  counter (cb s1) + (b_shift (cb s1) - 2) <= MAX_GATES ->
+  counter (cb s2) + (b_shift (cb s2) - 2) <= MAX_GATES ->
+  exists fd igs bindings,
+    find_fn P (p_main P) = Some fd /\ param_wiring P (fn_params fd) = (igs, bindings) /\
+    forall ins inp o vouts,
+      load_inputs igs ins = Some inp ->
+      tsem_program fuel P (param_args bindings inp) = Ok (o, vouts) ->
+      exists c1 c2 out1 out2,
+        lower_program_with fuel true P = Ok (LCircuit c1) /\ lower_program_with fuel false P = Ok (LCircuit c2) /\
+        ssa_eval c1 ins = Some out1 /\ ssa_eval c2 ins = Some out2 /\
+        parse_panic out1 = parse_panic out2 /\ (o = None -> skipn 161 out1 = skipn 161 out2).
+Proof. exact lower_dedup_irrelevant. Qed.
+Print Assumptions C04_program_dedup_irrelevant.
